@@ -392,3 +392,20 @@ pub fn gen_request(o: &GenOpts) -> ReqSpec {
     let cl_pos = t::range(0, headers.len() as u64) as usize;
     ReqSpec { method, path, query, headers, body, cl_name, cl_pos }
 }
+
+/// Sometimes pad a request with one more header so that its head is exactly 1020..1024 bytes long: the last sizes
+/// that still fit ohkami's 1 KiB head buffer (a head of exactly 1024 bytes is complete and must be served).
+pub fn maybe_pad_to_buffer_edge(spec: &mut ReqSpec) {
+    if !t::chance(1, 12) {
+        return;
+    }
+    let target = 1024 - t::pick(&[0usize, 0, 1, 2, 4]);
+    let cur = spec.head_bytes().len();
+    // "x-pad: " + value + CRLF = 9 + value
+    if cur + 10 > target {
+        return;
+    }
+    let n = target - cur - 9;
+    spec.headers.push(("x-pad".into(), vec![b'p'; n]));
+    debug_assert_eq!(spec.head_bytes().len(), target);
+}
